@@ -244,6 +244,7 @@ class Session:
         self.alive = set()
         self.joined_name = {}
         self.sent_log = {}        # cid -> list of (action key, reward, view canon) OK replies of the running episode
+        self.sent_lost = {}       # cid -> an OK reply of the running episode was lost (write failure): the log is incomplete
         self.init_view = {}
         self.bonus_seen = {}      # (cid, episode) -> count of final observations
         self.episode = {}
@@ -788,8 +789,14 @@ class Session:
             if o["k"] != "reply" or "obs" not in o:
                 continue
             c = o["c"]
+            if o["code"] == "RESET_DONE" and "traj" in o and c in self.sent_log and not self.sent_lost.get(c):
+                sent = self.sent_log[c]
+                if o["traj"]["rewards"] != [x[0] for x in sent] or o["traj"]["states"][1:] != [x[1] for x in sent]:
+                    self.fail({"C16"}, "traj-not-what-was-sent", f"the trajectory handed to connection {c} (rewards {o['traj']['rewards']}) is not what it was sent step by step "
+                              f"(rewards {[x[0] for x in sent]}; views equal: {o['traj']['states'][1:] == [x[1] for x in sent]})", self.replay())
             if o["code"] == "CREATED" or o["code"] == "RESET_DONE":
                 self.sent_log[c] = []
+                self.sent_lost[c] = False
                 self.init_view[c] = o["obs"]["view"]
                 self.episode[c] = self.episode.get(c, 0) + 1
                 if o["code"] == "RESET_DONE" and (o["obs"]["reward"] != 0 or o["obs"]["end"]):
@@ -803,6 +810,12 @@ class Session:
                     if self.bonus_seen[k] > 1:
                         self.fail({"C04", "C05"}, "two-finals", f"connection {c} received two final observations in one episode", self.replay())
         co = self.coord
+        if ev.get("must_refuse"):
+            # an action the world cannot process on a path where it certainly tries (same connection as the valid action just
+            # before it): the only acceptable answer is BAD_REQUEST - whatever the world's step() does with its own exception
+            rep = [o for o in real_outs if o["k"] == "reply" and o["c"] == cid]
+            if not rep or rep[0].get("code") != "BAD_REQUEST":
+                self.fail({"C09"}, "unprocessable-not-refused", f"a decodable action the world cannot process (unhashable field) was answered {[o.get('code') for o in rep]} instead of BAD_REQUEST", self.replay())
         dyn = bool(self.cfg["env"].get("use_dynamic_addresses"))
         # C07 / C11 / C13 / C19: the view handed out at the start of an episode contains only hosts that exist NOW, and
         # every host the start position lists explicitly (followed through the current re-labelling)
@@ -889,7 +902,7 @@ class Session:
                 now = C.canon_worlddyn(C.worlddyn2j(co))
                 if now != self.world0:
                     d = C.diff_canon(now, self.world0)
-                    self.fail({"C08"}, "world-not-restored:" + ",".join(d), f"after a completed reset the world tables {d} are not in their initial condition (after {kind} on {cid})", self.replay())
+                    self.fail({"C08", "C03"}, "world-not-restored:" + ",".join(d), f"after a completed reset the world tables {d} are not in their initial condition (after {kind} on {cid})", self.replay())
                     self.world0 = now
         rs = self.real_state()
         missing = {"run_game", "_assign_rewards_episode_end", "_reset_game"} - set(rs["tasks_alive"])
@@ -899,6 +912,8 @@ class Session:
                 tags |= {"C07"}
             if "_assign_rewards_episode_end" in missing:
                 tags |= {"C06", "C05"}
+            if "_reset_game" in missing and self.cfg["env"].get("use_dynamic_addresses"):
+                tags |= {"C13"}
             self.fail(tags, "task-died:" + ",".join(sorted(missing)), f"coordinator task(s) {sorted(missing)} died after {kind} on {cid}", self.replay())
             self.broken = True
         # C01 (iii): an unanswered request must be parked at a documented, unmet barrier.  The barriers are
@@ -917,6 +932,8 @@ class Session:
                 why = "reset"
             if why is None:
                 tags = {"C01"} | ({"C09"} if m["k"] == "bad" else set()) | ({"C06"} if m["k"] in ("join", "game") else set()) | ({"C07"} if m["k"] == "reset" else set()) | ({"C10"} if kind in ("eof", "readerr", "quit", "burst") else set())
+                if self.cfg["env"].get("use_dynamic_addresses") and m["k"] in ("join", "reset"):
+                    tags.add("C13")      # under dynamic addresses joins and resets go through the re-labelled start positions: the task must stay playable
                 self.fail(tags, f"unanswered:{m['k']}", f"request {m['k']} of connection {c} is unanswered at quiescence although no documented barrier is unmet (after {kind} on {cid})", self.replay())
                 self.broken = True
             else:
@@ -1217,6 +1234,11 @@ def directed_sessions(drv, rng, defender_tables, on_fail, stats, n):
                         tg = [h for h in sorted(v.controlled_hosts, key=str) if h != src]
                         if ds and tg:
                             sess.do(ev_game(sess, 0, Action(ActionType.ExfiltrateData, {"source_host": src, "target_host": tg[0], "data": ds[0]})))
+                            # decodable, but the world cannot process it (an unhashable field): refused, nothing counted or recorded
+                            raw = json.dumps({"action_type": "ActionType.ExfiltrateData", "parameters": {"source_host": {"ip": str(src)}, "target_host": {"ip": str(tg[0])},
+                                              "data": {"owner": rng.choice([["not", "hashable"], {"a": 1}]), "id": "d"} if rng.random() < 0.5 else {"owner": "o", "id": "d", "size": [0]}}}).encode()
+                            sess.do({"t": "msg", "c": 0, "m": {"k": "game", "act": ["ExfiltrateData", sess.keys.setdefault("unhashable:%s:%s:%d" % (src, tg[0], i), len(sess.keys))]},
+                                     "raw_bytes": raw, "roll": 0.9, "note": "unprocessable", "must_refuse": True})
                             break
             leave = ({"t": "msg", "c": 0, "m": {"k": "quit"}, "raw_bytes": J(ActionType.QuitGame)} if how == "quit"
                      else {"t": how, "c": 0, "exc": rng.choice(["reset", "timeout", "pipe"])})
@@ -1307,6 +1329,14 @@ def directed_races(drv, rng, defender_tables, on_fail, stats, n):
                 if sess.broken:
                     break
                 sess.do(sc.next())
+            # a late joiner: somebody leaves, a new client takes the seat long after the last reset
+            live = [c for c in sorted(sess.sim.conns) if not sess.sim.conns[c].task.done() and c not in sess.awaiting and c not in sess.pending_leave]
+            if live and not sess.broken:
+                sess.do({"t": "eof", "c": live[0], "exc": "reset"})
+                nc = max(sess.next_cid, max(sess.sim.conns) + 1)
+                sess.next_cid = nc + 1
+                sess.do({"t": "connect", "c": nc})
+                sess.do(ev_join(nc, rng.choice(["Attacker", "Defender"])))
             stats["directed_races"] = stats.get("directed_races", 0) + 1
         finally:
             sess.close()
